@@ -132,7 +132,7 @@ def instances(r, n):
         else:
             cfg = ad.random_cfg(r)
             out.append(_adapter_instance(name, ad, cfg))
-            if name == "csr.Multiplexer" and k % 2 == 0:
+            if name == "csr.Multiplexer":
                 out.append(_adapter_instance(name, ad, high_mux_cfg(r)))
     return out
 
@@ -143,14 +143,16 @@ def high_mux_cfg(r):
     dw = r.choice([8, 16, 32])
     base = r.randrange(1 << (aw - 1), (1 << aw) - 64)
     regs, at = [], base
+    if at % 4 == 0 and r.random() < 0.7:
+        at += r.choice([1, 2, 3])            # not naturally aligned: chunk aliasing is inherent
     for _ in range(r.randint(2, 4)):
-        at += r.choice([0, 0, 1, 3])
-        size = r.choice([1, 2, 3, 3, 5])
+        at += r.choice([0, 0, 0, 1, 3])
+        size = r.choice([1, 2, 3, 3, 3, 5])
         acc = r.choice(["r", "w", "rw", "rw"])
         regs.append({"start": at, "stop": at + size, "width": size * dw - r.randint(0, dw - 1),
                      "r": int(acc != "w"), "w": int(acc != "r")})
         at += size
-    return {"dw": dw, "aw": aw, "al": 0, "regs": regs, "overlaps": r.choice([None, 0, 0, 1, 2])}
+    return {"dw": dw, "aw": aw, "al": 0, "regs": regs, "overlaps": r.choice([None, 0, 0, 0, 1, 2])}
 
 
 def tiny_wb_decoder(r):
